@@ -30,7 +30,7 @@ func propC02(reps int) func(model.Case) hh.Verdict {
 				return hh.Fail("panic: %v", res.Panic)
 			}
 			got := res.Norm(false)
-			if !model.EqualIss(got, spec.Issues) {
+			if !model.EqualIssSpec(got, spec.Issues) {
 				return hh.Fail("issues differ (run %d): got %s want %s", r, fmtIss(got), fmtIss(spec.Issues))
 			}
 			if res.NoIssues() != (len(spec.Issues) == 0) {
